@@ -35,6 +35,31 @@ def wrap(kind, v):
     return v if kind == "prop" else [v] if kind == "elem" else {"k": v}
 
 
+def union_positions(mmv, t, arr=False, depth=0):
+    """[(inside an array?, [structure names among the alternatives])] for the `or` types met at or just below a property type"""
+    t = mmv.resolve_alias(t)
+    out = []
+    if depth > 3:
+        return out
+    if t["kind"] == "or":
+        names = []
+        for a in t["items"]:
+            ra = mmv.resolve_alias(a)
+            if ra["kind"] == "reference" and ra["name"] in mmv.S:
+                names.append(ra["name"])
+            elif ra["kind"] == "array" and mmv.resolve_alias(ra["element"])["kind"] == "reference" and mmv.resolve_alias(ra["element"])["name"] in mmv.S:
+                out.append((True, [mmv.resolve_alias(ra["element"])["name"]]))          # ... | X[] | ...
+            elif ra["kind"] in ("array", "or"):
+                out += union_positions(mmv, ra, arr or ra["kind"] == "array", depth + 1)
+        if names:
+            out.append((arr, names))
+    elif t["kind"] == "array":
+        et = mmv.resolve_alias(t["element"])
+        if et["kind"] == "or":
+            out += union_positions(mmv, et, True, depth + 1)
+    return out
+
+
 def run(chk):
     rng = random.Random(chk.seed)
     chk.rule = RULE
@@ -76,6 +101,39 @@ def run(chk):
                 cases.append({"target": sn, "input": j, "kind": "enum"})
                 meta.append((sn, pn, kind, en, v, want))
                 chk.count((sn, pn, v))
+        # the same use sites NESTED under the positions that reach their class through a union (where a dispatching hook, not the class's
+        # own structure function, decides how the object is built): Y.q : ... | X | ... or (X | ...)[]; one declared and one undeclared
+        # value each; an undeclared value of a closed enumeration must still be rejected unless another alternative admits the object
+        import r_ctor_valid
+        parents = {}
+        for yn in mmv.S:
+            if yn == "LSPObject" or (pkg and yn not in pkg["classes"]):
+                continue
+            for qn, q in mmv.flat(yn).items():
+                for arr, alts in union_positions(mmv, q["type"]):
+                    for xn in alts:
+                        parents.setdefault(xn, []).append((yn, qn, arr, q["type"]))
+        n_nested = 0
+        for sn, pn, kind, en in sites(mmv):
+            if pkg and sn not in pkg["classes"]:
+                continue
+            e = mmv.E[en]
+            declared = [v["value"] for v in e["values"]]
+            outside = "zz.custom" if e["type"]["name"] == "string" else max(declared) + 977
+            xbase = mmv.value(mmlib.ref(sn), 0, 0, 0)
+            for yn, qn, arr, qt in parents.get(sn, [])[:4]:
+                ybase = mmv.value(mmlib.ref(yn), 0, 0, 0)
+                for v in (declared[0], outside):
+                    x = dict(xbase)
+                    x[pn] = wrap(kind, v)
+                    j = dict(ybase)
+                    j[qn] = [x] if arr else x
+                    want = (v in declared) or (en in open_enums) or r_ctor_valid.valid(mmv, qt, j[qn])
+                    cases.append({"target": yn, "input": j, "kind": "enum-nested"})
+                    meta.append((yn, "%s.%s" % (qn, pn), "nested:" + kind, en, v, want))
+                    chk.count((yn, qn, sn, pn, v))
+                    n_nested += 1
+        chk.extra["nested_use_sites"] = n_nested
         if ok:
             verdict, real = CS.run_cases(cases, "C13")
             nbad = sum(1 for v in verdict if v)
@@ -92,6 +150,8 @@ def run(chk):
         sn, pn, kind, en, v, want = m
         if r["ok"] != want:
             witness = witness or {"class": sn, "property": pn, "site": kind, "enum": en, "value": v, "json": c["input"], "expected": "accepted" if want else "rejected", "observed": "accepted" if r["ok"] else "raises %s" % r.get("err")}
+        elif want and kind.startswith("nested:"):
+            pass        # accepted as required; the round trip of nested values is C01's
         elif want:
             out = r.get("unstr") or {}
             got = out.get(pn) if isinstance(out, dict) else None
